@@ -24,6 +24,84 @@ def nclass(n):
     return "<=127" if n <= 127 else "<=200" if n <= 200 else "<=255" if n <= 255 else "<=1000" if n <= 1000 else "<=32767" if n <= 32767 else "<=65535" if n <= 65535 else ">65535"
 
 
+DH_PRELUDE = '''
+local function small(a) return (a or 41) + 1 end
+local N = 100     -- few, long, distinct string constants: copying the constant table is cheap, marshalling them is not
+local parts = {}
+for i = 1, N do parts[i] = "'" .. string.rep(string.char(97 + i % 26), 2000) .. i .. "'" end
+local big = load("local t = {" .. table.concat(parts, ",") .. "} return #t * 50")
+local up = 3
+local function upv() up = up + 4 return up end
+local F = {small = small, big = big, upv = upv}
+local FIRST = {small = string.dump(small), big = string.dump(big), upv = string.dump(upv)}
+local FIRSTS = {small = string.dump(small, true), upv = string.dump(upv, true)}
+local bigsize = #FIRST.big
+local function behaves(name, d)
+  local g = load(d, "=d", "b")
+  if not g then return "reload-failed" end
+  if name == "upv" then debug.setupvalue(g, 1, 3) end
+  local ok, v = pcall(g)
+  return ok and v or "error"
+end
+'''
+
+
+def dh_render(l):
+    out = [DH_PRELUDE]
+    for op in l["h"]:
+        k = op[0]
+        if k == "dump":
+            out.append('do local d = string.dump(F.%s) emit("dump", "%s", d == FIRST.%s, behaves("%s", d)) end' % (op[1], op[1], op[1], op[1]))
+        elif k == "strip":
+            out.append('do local d = string.dump(F.%s, true) emit("strip", "%s", d == FIRSTS.%s, behaves("%s", d)) end' % (op[1], op[1], op[1], op[1]))
+        elif k == "gofn":
+            out.append('emit("gofn", pcall(string.dump, print) and "dumped" or "refused")')
+        elif k == "killmem":
+            # the marshalling budget is 10 times the unused memory: a limit of m/40 of the size cuts the dump at about m/4 of it
+            out.append('KILLED = (KILLED or 0) + (runtime.callcontext({kill = {memory = bigsize * %d // 40}}, function() return #string.dump(big) end).status == "killed" and 1 or 0) emit("killmem")' % op[2])
+        elif k == "killcpu":
+            out.append('KILLED = (KILLED or 0) + (runtime.callcontext({kill = {cpu = 2000}}, function() for i = 1, 100 do string.dump(big) end end).status == "killed" and 1 or 0) emit("killcpu")')
+        else:
+            raise Infra("DumpHist op " + k)
+    out.append('emit("killed", KILLED or 0)')
+    return "\n".join(out) + "\n"
+
+
+def dump_histories(rep, drv, tier):
+    """C13 over histories (DumpHist.tla): a dump does not depend on the dumps before it, completed, refused or terminated"""
+    cov = rep.cov
+    lines = []
+    res = run_tlc("DumpHist", "DumpHistQ.cfg" if tier == "quick" else "DumpHistT.cfg", timeout=300, on_line=lines.append, workers=1)
+    if res.violation:
+        raise Infra("DumpHist: " + res.violation)
+    cases = [{"id": i, "src": dh_render(l), "timeout": 120000} for i, l in enumerate(lines)]
+    outs = run_lua_cases(drv, cases)
+    cov["dump_histories"] = len(cases)
+    bad = 0
+
+    def tokv(x):
+        return x if isinstance(x, bool) else ({"i": str(x)} if isinstance(x, int) else {"s": x})
+    for i, l in enumerate(lines):
+        o = outs[i]
+        exp = [[tokv(x) for x in e] for e in l["exp"]]
+        why = None
+        if o.get("timeout") or o.get("crash") or o.get("panic"):
+            why = "crash-or-hang"
+        elif not o.get("ok"):
+            why = "error"
+        elif (o.get("events") or [])[:-1] != exp:
+            got = (o.get("events") or [])[:-1]
+            j = next((j for j in range(len(exp)) if j >= len(got) or got[j] != exp[j]), len(exp))
+            why = "after-" + "+".join(sorted({op[0] for op in l["h"][:j] if op[0] in ("killmem", "killcpu", "gofn")})) if j < len(exp) else "extra-events"
+        if not why:
+            cov["dump_histories_with_a_terminated_dump"] = cov.get("dump_histories_with_a_terminated_dump", 0) + (1 if int(o["events"][-1][1]["i"]) > 0 else 0)
+        if why:
+            bad += 1
+            rep.violation({"kind": "dump-history", "why": why, "op": l["h"][-1][0]},
+                          {"cmd": "lua-run", "src": cases[i]["src"][-800:], "history": l["h"], "expected_events": exp, "observed": o})
+    log("[%s] DumpHist: %d histories, %d mismatching" % (rep.prop, len(cases), bad))
+
+
 def size_family(rep, drv, tier):
     """C13: DumpSize.tla.  One driver case per (shape, n); the wrapper runs every variant in turn and marks the sections."""
     cov = rep.cov
@@ -153,6 +231,7 @@ def run(prop, tier):
                            "conforming_variants": [v for v, _, _ in variants if v not in dev]})
     if prop == "C13":
         size_family(rep, variants[0][1], tier)
+        dump_histories(rep, variants[0][1], tier)
     if prop == "C14":
         # finalisers and releases under every build (the safepool tag selects the other finaliser-pool implementation):
         # GC scripts from GCGen.tla (incl. re-marking), events validated by TLC against GCTrace.tla per build
